@@ -686,6 +686,9 @@ func parseCanon(v any) any {
 		xm := x.(M)
 		ids = append(ids, []any{xm["id"], xm["type"]})
 	}
+	// multiset of (identifier, kind): the attributes are not part of the skeleton, so they must not
+	// decide the order either
+	sort.SliceStable(ids, func(i, j int) bool { return js(ids[i]) < js(ids[j]) })
 	return M{"nodes": ids, "edges": nl["edges"], "roots": nl["roots"]}
 }
 
